@@ -6,7 +6,7 @@ use crate::protocol::per::{Error, ErrorKind};
 impl BitRead for (&[u8], &mut usize) {
     #[inline]
     fn read_bit(&mut self) -> Result<bool, Error> {
-        if *self.1 > self.0.len() * BYTE_LEN {
+        if *self.1 >= self.0.len() * BYTE_LEN {
             return Err(ErrorKind::EndOfStream.into());
         }
         let bit = self.0[*self.1 / BYTE_LEN] & (0x80 >> (*self.1 % BYTE_LEN)) != 0;
